@@ -157,13 +157,13 @@ class Net:
         r, c = self.rng, self.cfg
         dst = self.other(who)
         if self.healed:
-            self.flight.append((self.t, dst, idx))
+            self.flight.append((self.t + c.get("healed_delay", 0), dst, idx))
             return
         if r.random() < c.get("loss", 0):
             return
-        delay = 0
+        delay = c.get("delay", 0)            # fixed one-way latency (multiples of 15 ticks)
         if r.random() < c.get("reorder", 0):
-            delay = r.randrange(0, c.get("max_delay", 2 * T) // 15 + 1) * 15
+            delay += r.randrange(0, c.get("max_delay", 2 * T) // 15 + 1) * 15
         self.flight.append((self.t + delay, dst, idx))
         if r.random() < c.get("dup", 0):
             self.flight.append((self.t + r.randrange(0, c.get("max_delay", 2 * T) // 15 + 1) * 15, dst, idx))
